@@ -17,6 +17,11 @@ MPI_ENV = {
 NCORES = 16
 
 
+CASE_TLIMIT = int(os.environ.get('VERIF_CASE_TLIMIT', '15'))
+MAX_CONFIRM_TIMEOUTS = 12
+STATS = {'max_case_ms': 0.0}
+
+
 class Case:
     """One case = header options + op lines.  The text form is the replay artefact."""
     __slots__ = ('name', 'np', 'ops', 'opts', 'meta')
@@ -42,9 +47,13 @@ class Case:
     def raw(self, line):
         self.ops.append(line); return len(self.ops)
 
-    def text(self):
+    def text(self, tscale=1):
         hdr = 'case %s np=%d' % (self.name, self.np)
-        for k, v in self.opts.items():
+        opts = dict(self.opts)
+        # every case runs under a wall-clock alarm inside the executor: a livelock (which the board cannot see, every
+        # rank keeps making matching calls) ends the case after seconds instead of the batch after minutes
+        opts['tlimit'] = int(opts.get('tlimit', CASE_TLIMIT)) * tscale
+        for k, v in opts.items():
             if isinstance(v, (list, tuple)): v = ','.join(map(str, v))
             hdr += ' %s=%s' % (k, v)
         return hdr + '\n' + '\n'.join(self.ops) + '\nend\n'
@@ -126,6 +135,8 @@ def _parse_logs(outdir, np, cases):
                         i = kv.find('=')
                         if i > 0: d[kv[:i]] = kv[i + 1:]
                     res[ci].end[rank] = d
+                    try: STATS['max_case_ms'] = max(STATS['max_case_ms'], float(d.get('ms', 0)))
+                    except ValueError: pass
                 elif t[0] == 'X':
                     notes.setdefault(int(t[1]), []).append('rank%d line%s %s' % (rank, t[2], ' '.join(t[3:])))
             except (ValueError, IndexError):
@@ -142,7 +153,7 @@ def _parse_logs(outdir, np, cases):
 _job_counter = itertools.count()
 
 
-def _run_job(vx, cases, np, timeout, keep=False, env_extra=None):
+def _run_job(vx, cases, np, timeout, keep=False, env_extra=None, tscale=1):
     """run one mpirun; returns (list of CaseResult, exit status string)"""
     jid = next(_job_counter)
     base = os.path.join(WORKROOT, '%d' % os.getpid(), 'j%d' % jid)
@@ -150,7 +161,7 @@ def _run_job(vx, cases, np, timeout, keep=False, env_extra=None):
     os.makedirs(outdir); os.makedirs(work)
     job = os.path.join(base, 'job.txt')
     with open(job, 'w') as f:
-        for c in cases: f.write(c.text())
+        for c in cases: f.write(c.text(tscale) if tscale != 1 else c.text())
     env = dict(os.environ); env.update(MPI_ENV)
     env['TMPDIR'] = base
     if env_extra: env.update(env_extra)
@@ -185,12 +196,12 @@ def _classify(r, status, out):
         r.detail = (d + ' || ' + status + ' || ' + tail).strip()
 
 
-def run_batch(vx, cases, np, timeout=120, env_extra=None):
+def run_batch(vx, cases, np, timeout=120, env_extra=None, tscale=1):
     """Runs the cases (all with the same np) in one or more mpirun jobs; a job that dies is restarted after the case that killed it."""
     done = []
     todo = list(cases)
     while todo:
-        res, status, out, wall = _run_job(vx, todo, np, timeout, env_extra=env_extra)
+        res, status, out, wall = _run_job(vx, todo, np, timeout, env_extra=env_extra, tscale=tscale)
         k = 0
         while k < len(res) and res[k].status == 'ok': k += 1
         done.extend(res[:k])
@@ -233,16 +244,35 @@ def run_cases(vx, cases, batch=200, timeout=None, jobs=None, env_extra=None, con
         with ThreadPoolExecutor(max_workers=nj) as ex:
             list(ex.map(work, ts))
     if confirm:
-        for i, r in enumerate(results):
-            if r is not None and r.status != 'ok':
-                to = confirm_timeout or (600 if r.status == 'timeout' else 120)
-                r2 = run_batch(vx, [cases[i]], cases[i].np, timeout=to, env_extra=env_extra)[0]
-                if r2.status == r.status: r.confirmed = True
-                elif r2.status == 'ok':
-                    # not reproducible alone: keep the clean result, remember the flake
-                    r2.detail = 'FLAKE: first run %s (%s)' % (r.status, r.detail[:300]); results[i] = r2
-                else:
-                    r2.confirmed = False; r2.detail += ' (first run: %s)' % r.status; results[i] = r2
+        # every non-ok case is re-run alone before it is believed; a timed-out case gets three times its time limit.
+        # Re-runs go in parallel; beyond MAX_CONFIRM_TIMEOUTS hung cases the remaining ones are reported as first seen
+        # (a change that hangs hundreds of cases must not turn a check of minutes into one of hours).
+        bad = [i for i, r in enumerate(results) if r is not None and r.status != 'ok']
+        nto = 0; todo = []
+        for i in bad:
+            if results[i].status == 'timeout':
+                nto += 1
+                if nto > MAX_CONFIRM_TIMEOUTS:
+                    results[i].detail += ' (not re-run alone: %d earlier timeouts of this run were)' % MAX_CONFIRM_TIMEOUTS; continue
+            todo.append(i)
+
+        def confirm_one(i):
+            r = results[i]
+            if r.status == 'timeout':
+                tl = int(cases[i].opts.get('tlimit', CASE_TLIMIT)) * 3
+                to = confirm_timeout or (tl + 60); ts = 3
+            else:
+                to = confirm_timeout or 120; ts = 1
+            r2 = run_batch(vx, [cases[i]], cases[i].np, timeout=to, env_extra=env_extra, tscale=ts)[0]
+            if r2.status == r.status: r.confirmed = True
+            elif r2.status == 'ok':
+                # not reproducible alone: keep the clean result, remember the flake
+                r2.detail = 'FLAKE: first run %s (%s)' % (r.status, r.detail[:300]); results[i] = r2
+            else:
+                r2.confirmed = False; r2.detail += ' (first run: %s)' % r.status; results[i] = r2
+        if todo:
+            with ThreadPoolExecutor(max_workers=max(1, NCORES // max(cases[i].np for i in todo) // 2)) as ex:
+                list(ex.map(confirm_one, todo))
     return results
 
 
